@@ -96,7 +96,15 @@ impl SdJwtVc {
     let metadata_url = {
       let origin = self.claims().iss.origin().ascii_serialization();
       let path = self.claims().iss.path();
-      format!("{origin}{WELL_KNOWN_VC_ISSUER}{path}").parse().unwrap()
+      // The issuer of a token is attacker controlled: an `iss` without an origin such as `did:example:123`
+      // (origin "null") does not yield a URL.
+      format!("{origin}{WELL_KNOWN_VC_ISSUER}{path}")
+        .parse()
+        .map_err(|_| Error::InvalidClaimValue {
+          name: "iss",
+          expected: "URL with an origin",
+          found: serde_json::Value::String(self.claims().iss.to_string()),
+        })?
     };
     match resolver.resolve(&metadata_url).await {
       Err(ResolverErr::NotFound(_)) => Ok(None),
